@@ -101,5 +101,19 @@ EXTRA2 = {'C01': ' Exactly-zero / unit / all-ones / {-1,0,1} tensors are include
  'C18': ' Boolean-mask and narrow-integer index sets, (nearly) reversible data.',
  'C19': ' Function objects shared between modes, 1025-6500 snapshots, poorly conditioned bases (condition numbers up to 1e9).',
  'C20': ' Textbook matrix-product states (GHZ copy tensors with single-qubit gates), registers of up to 72 qubits decided by a transfer-matrix oracle.'}
+EXTRA3 = {'C01': ' transpose with every form of the cores argument; uniform() with narrow NumPy integer dimensions / ranks whose product leaves the type.',
+ 'C02': ' diag on trains of tiny / huge / uneven magnitude.',
+ 'C03': ' Sweeps after the owner rescaled earlier results in place; methods called positionally in the recorded parameter order.',
+ 'C04': ' Histories where the owner assigns new values to a core of a canonical train (any cached structural knowledge is stale); the zero tensor.',
+ 'C05': ' The train left by an overwriting svd / pinv is split again.',
+ 'C07': ' Exactness from maximal-rank structured guesses (Kronecker operators with unequal mode sizes).',
+ 'C08': ' One to three iterations of the inverse power iteration (far from convergence); deflation with generalised problems.',
+ 'C09': ' Time grids whose first step is exactly zero (ALS).',
+ 'C11': ' Zero-padded maximal-rank product states; Krylov on states of any norm.',
+ 'C12': ' Null reactions with rates up to 1e15 beside ordinary ones; Ulam grids of up to 1400 boxes with near and far transitions.',
+ 'C14': ' Function objects re-tuned through their attributes between calls.',
+ 'C15': " HOCUR: the candidate submatrix of every bond is observed at the library's extraction helper (the column search must find the rank of ALL candidates); repeated leading snapshots with ranks equal to the true ranks; one-variable user functions written with reductions; single-mode basis lists.",
+ 'C18': ' Single-mode basis lists; an AMUSEt-HOCUR call whose cross approximation was decided wrong is reported here as well.',
+ 'C20': ' Entangled qubits separated by 64-80 basis-state qubits; 560-700 measured qubits with about one bit of entropy each (chains of crossing entangled pairs).'}
 for _k in TABLE:
-    TABLE[_k]['text'] = TABLE[_k]['text'] + EXTRA.get(_k, '') + EXTRA2.get(_k, '') + COMMON
+    TABLE[_k]['text'] = TABLE[_k]['text'] + EXTRA.get(_k, '') + EXTRA2.get(_k, '') + EXTRA3.get(_k, '') + COMMON
